@@ -1,6 +1,6 @@
-CONSTANT Configs <- ThoroughConfigs
+CONSTANT Configs = {}
 CONSTANT MaxW = 3
-SPECIFICATION Spec
+SPECIFICATION ThoroughSpec
 INVARIANTS Paired NoDup AllDelivered InOrder1 RecordsPaired RecordsInOrder SetsAreWhatReaderProduced
 INVARIANTS ErrOnce ErrNoLater ErrDrain InitFailuresSurface ClosedOnlyAfterInitFailure PerRecordErrorsReturned
 INVARIANTS BoundedSets ReaderAhead RecycledOnly
